@@ -2,4 +2,4 @@ package main
 
 import "verifharness/c12"
 
-func init() { runners["C12"] = c12.Run }
+func init() { runners["C12"] = c12.Run; facts["C12"] = c12.Facts }
